@@ -31,7 +31,8 @@ LEVEL_TEXT = ("per generated program (machine JSON x template x sync/async x 1/2
 RULE = (
     "Programs = generated machine configs covering nesting, parallel, history, after (numeric / named), always, invoke "
     "with id/input/handlers, onDone, tags, meta, context, guards as names / parameterised objects / stateIn / composites "
-    "in both operand spellings, actions with params, null-free transitions, plus hostile and colliding names (quotes, "
+    "in both operand spellings incl. composites nested in composites of the same operator, invoke ids equal to their "
+    "state's path or key, actions with params, null-free transitions, plus hostile and colliding names (quotes, "
     "backslashes, newlines, triple quotes, keywords, names equal after sanitising, unicode, a shell/py payload) and the "
     "104 Stately exports in tests/tests_cli/stately_machines; x 5 templates x async yes/no x 1/2 files. The CLI runs as a "
     "subprocess in a scratch directory (removed afterwards). Oracle: exit!=0 and directory unchanged, OR: every file "
